@@ -28,7 +28,7 @@ fam('types_upd', depth=2, maxstack=4,
     alphabet=[('UPDATE', 1), ('UPDATE', 2), ('UPDATE', 3), ('UPDATE', 4), ('GET', 1), ('GET', 2), ('GET', 3), ('GET', 4), ('CAR',), ('CDR',), ('UNPAIR', 2), ('UNPAIR', 3), ('SWAP',),
               ('IF_NONE', (PUSH(STR, s('n')),), ()), ('IF_CONS', (DIP(1, DROP(1)),), (PUSH(STR, s('e')),)), ('SIZE',)])
 
-FAMS = ['types_upd', 'types_list', 'types_map', 'types_ctor', 'optlist', 'adt', 'dipstack', 'stack', 'bigmap']
+FAMS = ['types_upd', 'types_list', 'types_map', 'types_ctor', 'optlist', 'adt', 'dipstack', 'stack', 'bigmap', 'dipops']
 
 
 def annotated_types(ctx, prop, fname, st):
